@@ -1,7 +1,7 @@
 //! Seeded workload generators: one integer -> one case (scenario, parameters, policy, fault plan).
 
-use crate::case::{Case, DItem, Descend, Mode, Sweep, GK};
-use crate::corpus::{Root, ODD_FENS, ROOTS, SIBLINGS};
+use crate::case::{Case, DItem, Descend, Mode, Sweep, Walks, GK};
+use crate::corpus::{Root, ODD_FENS, PERPETUALS, ROOTS, SIBLINGS};
 use crate::model::Pos;
 use crate::verif_shim::sched::{splitmix, Policy};
 
@@ -326,7 +326,7 @@ pub fn gen_direct_history(prop: &str, seed: u64, faults: bool) -> Case {
             } else {
                 None
             };
-            case.items.push(DItem { root: root.clone(), moves: line[..at].to_vec(), depth: Some(depth), stop_at, fresh: false, isolated: false, sweep: None, descend: None });
+            case.items.push(DItem { root: root.clone(), moves: line[..at].to_vec(), depth: Some(depth), stop_at, fresh: false, isolated: false, sweep: None, descend: None, walks: None });
             if rng.chance(1, 4) {
                 // follow the previous search into its own tree: a position the table holds an entry for
                 let mut d = ditem(&root, &[], Some(rng.range(1, max_depth_for(cls)) as u8), None);
@@ -381,7 +381,7 @@ pub fn walk_from(rng: &mut Rng, root: &str, pre: &[String], n: u64) -> Vec<Strin
 }
 
 fn ditem(root: &str, moves: &[String], depth: Option<u8>, stop_at: Option<u64>) -> DItem {
-    DItem { root: root.to_string(), moves: moves.to_vec(), depth, stop_at, fresh: false, isolated: false, sweep: None, descend: None }
+    DItem { root: root.to_string(), moves: moves.to_vec(), depth, stop_at, fresh: false, isolated: false, sweep: None, descend: None, walks: None }
 }
 
 fn direct_params(case: &mut Case, max_polls: u64) {
@@ -399,10 +399,17 @@ pub fn gen_c07(seed: u64, thorough: bool) -> Case {
     let mut rng = Rng::new(seed, 0x07);
     let fam = seed % 8;
     let r = rng.pick(ROOTS);
-    let root = r.fen.to_string();
+    let mut root = r.fen.to_string();
     let pre_n = if rng.chance(1, 2) { 0 } else { rng.below(8) };
-    let pre = walk(&mut rng, &root, pre_n);
-    let class = if pre.len() > 4 { r.class.max(1) } else { r.class };
+    let mut pre = walk(&mut rng, &root, pre_n);
+    let mut class = if pre.len() > 4 { r.class.max(1) } else { r.class };
+    if rng.chance(1, 10) {
+        // a forced reply that repeats the position (perpetual check): repetition filter + single-reply root
+        let (f, m) = *rng.pick(PERPETUALS);
+        root = f.to_string();
+        pre = m.split_ascii_whitespace().map(|x| x.to_string()).collect();
+        class = 0;
+    }
     let depth = rng.range(1, max_depth_for(class).min(if class == 0 { 5 } else { 3 })) as u8;
     if fam <= 4 {
         let mut case = Case::new("C07", "direct-stop-sweep", seed, Mode::Direct);
@@ -546,7 +553,13 @@ pub fn gen_c08(seed: u64, thorough: bool) -> Case {
             }
             _ => {}
         }
-        if rng.chance(1, 4) && pre.len() >= 1 {
+        if rng.chance(1, 3) {
+            // a position inside the first search's tree: whatever entry (exact or bound) that search left for it
+            let mut it = ditem(&root, &[], Some(n), None);
+            it.descend = Some(Descend { plies: rng.range(1, 2) as u8, pick: rng.next() });
+            case.items.push(it);
+            case.family = "direct-depth-after-deeper-entry/table-guided".into();
+        } else if rng.chance(1, 4) && pre.len() >= 1 {
             // two plies later down the line the first search examined
             let more = walk_from(&mut rng, &root, &pre, 2);
             let mut line = pre.clone();
@@ -732,6 +745,29 @@ pub fn gen_c13(seed: u64, _thorough: bool) -> Case {
     } else {
         case.family = "wide".into();
         swarm_params(&mut rng, &mut case);
+    }
+    if rng.chance(2, 5) {
+        // the table is not empty: an earlier search of another game, of this position, or of a neighbour
+        case.family.push_str("/warm-table");
+        match rng.below(3) {
+            0 => {
+                let o = rng.pick(ROOTS);
+                case.raw(format!("position {}", root_cmd(o)));
+                case.raw(format!("go depth {}", rng.range(1, max_depth_for(o.class).min(3))));
+                case.push(GK::AwaitBest);
+            }
+            1 => {
+                case.push(GK::PosCur);
+                case.raw(format!("go depth {}", rng.range(1, 3)));
+                case.push(GK::AwaitBest);
+            }
+            _ => {
+                case.push(GK::PosCur);
+                case.raw(format!("go depth {}", rng.range(1, 3)));
+                case.push(GK::AwaitBest);
+                case.push(GK::Advance { best: true, replies: vec![rng.next() as u32] });
+            }
+        }
     }
     case.push(GK::PosCur);
     // the budget the engine should arrive at decides the node cost in the wide regime
@@ -999,6 +1035,28 @@ pub fn gen_sibling_pairs(prop: &str, seed: u64) -> Case {
     case
 }
 
+/// Thousands of shallow searches of different positions on one table: every search leaves an exact root entry, so
+/// a table that identifies positions by less than their full hash soon hands one root another root's move.
+pub fn gen_many_roots(prop: &str, seed: u64, thorough: bool) -> Case {
+    let mut rng = Rng::new(seed, 0x3a27);
+    let mut case = Case::new(prop, "direct-many-roots", seed, Mode::Direct);
+    direct_params(&mut case, 3_000_000);
+    let n_groups = rng.range(2, 4);
+    let per = if thorough { 6_000 } else { 1_500 };
+    for _ in 0..n_groups {
+        let r = loop {
+            let r = rng.pick(ROOTS);
+            if r.class != 3 {
+                break r;
+            }
+        };
+        let mut it = ditem(r.fen, &[], Some(1), None);
+        it.walks = Some(Walks { n: per / n_groups as u32, max_len: rng.range(3, 12) as u8, seed: rng.next() });
+        case.items.push(it);
+    }
+    case
+}
+
 /// The case a seed expands to for a property's default workload mix.
 pub fn gen(prop: &str, seed: u64, thorough: bool) -> Case {
     match prop {
@@ -1026,7 +1084,14 @@ pub fn gen(prop: &str, seed: u64, thorough: bool) -> Case {
             3 => gen_session(prop, seed, 1, false),
             4..=6 => gen_direct_history(prop, seed, true),
             7 => gen_direct_history(prop, seed, false),
-            _ => gen_sibling_pairs(prop, seed),
+            8 => gen_sibling_pairs(prop, seed),
+            _ => {
+                if seed % 40 == 9 {
+                    gen_many_roots(prop, seed, thorough)
+                } else {
+                    gen_sibling_pairs(prop, seed)
+                }
+            }
         },
         "C07" => gen_c07(seed, thorough),
         "C08" => gen_c08(seed, thorough),
